@@ -70,7 +70,7 @@ CLAIMED = {
                      'and attributable to one fetch, final cache holds only correct in-grid tiles incl. every served tile '
                      '(API + raw walk), one fetch per meta tile, termination. A rare lock-identity case starts two fresh interpreters with '
                      'different hash seeds and compares the lock file names they derive for the same tiles and bundles. Backends include linked '
-                     'single-colour tiles (one shared file per colour, written without a tile lock of its own). One flock() on a tile lock may fail (ENOLCK/EIO). Symlinked single-colour backends may run under a refresh rule with a colour file older than the rule. Threads may be switched between two statements of the tile-manager / cache code (line events). Worker processes may start together (each builds its cache when its first request runs). File-cache cases may carry a dimension value per client (judged per value). Backends also include mbtiles, per-level sqlite, geopackage and per-level geopackage caches: the SQLite calls are pre-emption points and busy waits run in simulated time, requests run inside cache sessions. With bulk_meta_tiles the source may have nothing (BlankImage) for some tiles of a meta tile: the others must still be stored once, without refetching.',
+                     'single-colour tiles (one shared file per colour, written without a tile lock of its own). One flock() on a tile lock may fail (ENOLCK/EIO). The database file of a level may be removed after every process has opened it. Symlinked single-colour backends may run under a refresh rule with a colour file older than the rule. Threads may be switched between two statements of the tile-manager / cache code (line events). Worker processes may start together (each builds its cache when its first request runs). File-cache cases may carry a dimension value per client (judged per value). Backends also include mbtiles, per-level sqlite, geopackage and per-level geopackage caches: the SQLite calls are pre-emption points and busy waits run in simulated time, requests run inside cache sessions. With bulk_meta_tiles the source may have nothing (BlankImage) for some tiles of a meta tile: the others must still be stored once, without refetching.',
                 note='trusted: stub source (TileManager-level runs) or simulated HTTP transport behind HTTPClient.open (about 20% of the '
                      'runs go through the full WSGI application built by the real loader: TMS/WMTS/KML/WMS-C/WMS GetMap), SimFS '
                      'flock/rename semantics, pre-emption at seam calls only',
